@@ -205,13 +205,19 @@ def closure(unit, units):
     """units whose declarations+contracts must be visible: transitive over `uses`"""
     seen = []
 
+    active = set()
+
     def go(n):
+        active.add(n)
         for x in units[n].get('uses', []) + units[n].get('inline', []):
             if x not in units:
                 raise specmod.SpecError('unit %s uses unknown unit %s' % (n, x))
+            if x == unit['name'] or x in active:
+                continue
             if x not in seen:
                 go(x)
                 seen.append(x)
+        active.discard(n)
     go(unit['name'])
     return seen
 
